@@ -68,7 +68,9 @@ def gen_case(rng):
             src.append(("PitchBend.onTime(%s)" if big else "p.onTime(%s)") % ",".join(map(str, tri))); sx.append("(pbontime %d (%s))" % (1 if big else 0, " ".join(map(str, tri)))); nres += 1; interp = True
         else:
             tri = []
-            for _ in range(rng.randrange(1, 3)): tri += [rng.randint(0, 127), rng.randint(0, 127), rng.choice([96, 192, 384, 100])]
+            # (end points may lie outside 0..127: the note's velocity is the interpolated value, clamped afterwards)
+            ep = lambda: rng.randint(0, 127) if rng.random() < 0.7 else rng.choice([-100, -20, 140, 200, 254, 300])
+            for _ in range(rng.randrange(1, 3)): tri += [ep(), ep(), rng.choice([96, 192, 384, 100])]
             src.append("v.onTime(%s)" % ",".join(map(str, tri))); sx.append("(vontime (%s))" % " ".join(map(str, tri))); nres += 1; interp = True
     return " ".join(src), "(" + " ".join(sx) + ")", nres, nnotes, interp
 
